@@ -1039,3 +1039,105 @@ def rule_subsumed(ctx) -> RuleResult:
                 caught.setdefault(subj, []).extend((t, c) for t in names)
     res.inst(f"{n_chains} dtype-class test chains examined", "count")
     return res
+
+
+# ---------------------------------------------------------------------------------------------
+# R-ACCDTYPE (C20, C11): block accumulators that the blueprint does not declare are derived from the *final* dtype.
+# The final dtype carries NumPy's default-integer promotion (int8 sums/products accumulate in int64).  An intermediate dtype computed from
+# the raw input dtype alone makes every block accumulate in the input width: the partial products wrap, and the wide final cast comes too late.
+def rule_accdtype(ctx) -> RuleResult:
+    res = RuleResult("R-ACCDTYPE", "undeclared intermediate dtypes are derived from the final dtype", min_instances=2)
+    f = ctx.prog.func("aggregations._initialize_aggregation")
+    store = None
+    for n in walk_own(f.node):
+        if isinstance(n, ast.Assign) and any(isinstance(t, ast.Attribute) and t.attr == "dtype" for t in n.targets) and isinstance(n.value, ast.Dict):
+            store = n
+    if store is None:
+        raise AnalysisError("_initialize_aggregation: 'agg.dtype = {...}' not found (anchor)")
+    d = {k.value: v for k, v in zip(store.value.keys, store.value.values) if isinstance(k, ast.Constant)}
+    if "final" not in d or "intermediate" not in d:
+        raise AnalysisError("_initialize_aggregation: agg.dtype lacks 'final' / 'intermediate' (anchor)")
+    final_names = names_in(d["final"])
+    from .codes import _local_closure
+    inter = d["intermediate"]
+    comps = [x for x in ast.walk(inter) if isinstance(x, (ast.GeneratorExp, ast.ListComp))]
+    if not comps:
+        res.notes.append("UNDECIDED: intermediate dtypes are not built by a comprehension over the blueprint's declarations")
+        res.inst("intermediate dtypes: unrecognised construction", "inter")
+        return res
+    alts = []
+
+    def leaves(e):
+        if isinstance(e, ast.IfExp):
+            leaves(e.body)
+            leaves(e.orelse)
+        else:
+            alts.append(e)
+    leaves(comps[0].elt)
+    comp_vars = set()
+    for g in comps[0].generators:
+        comp_vars |= names_in(g.target)
+    for e in alts:
+        declared = isinstance(e, ast.Call) and norm(e.func) in ("np.dtype", "numpy.dtype") and e.args and names_in(e.args[0]) & comp_vars
+        if declared:
+            res.inst(f"intermediate dtype alternative '{norm(e)[:50]}': declared by the blueprint", f"alt|{norm(e)[:30]}")
+            continue
+        clo = _local_closure(f, e)
+        uses_final = any(names_in(x) & final_names for x in clo)
+        res.inst(f"intermediate dtype alternative '{norm(e)[:60]}': derived from the final dtype ({sorted(final_names)}): {uses_final}", f"alt|{norm(e)[:30]}")
+        if not uses_final:
+            res.report(f"aggregations._initialize_aggregation|accumulator-from-input-dtype|{norm(e)[:30]}", f.where(e), f.qualname,
+                       f"'{norm(e)[:80]}' computes an undeclared intermediate dtype without the final dtype: the block-level accumulator takes the width of the "
+                       "input (int8 products wrap inside a block) although the final dtype is the promoted one; eager results are unaffected, so chunked "
+                       "and eager answers differ")
+    return res
+
+
+# ---------------------------------------------------------------------------------------------
+# R-FINALDEPS (C11): the final dtype depends on the reduction, the input dtype, the requested dtype and the fill value -- on nothing else.
+# That is the property's own statement; in _initialize_aggregation it is a def-use fact: the closure of the value stored under
+# agg.dtype["final"] may reach the parameters func / dtype / array_dtype / fill_value only (not min_count, finalize_kwargs, ...), and the
+# fill value must arrive unconditionally (a fill that is passed on only under some condition makes the dtype depend on that condition).
+def rule_finaldeps(ctx) -> RuleResult:
+    res = RuleResult("R-FINALDEPS", "the final dtype depends only on the reduction, the input dtype, the requested dtype and the fill value", min_instances=2)
+    f = ctx.prog.func("aggregations._initialize_aggregation")
+    from .codes import _local_closure
+    store = None
+    for n in walk_own(f.node):
+        if isinstance(n, ast.Assign) and any(isinstance(t, ast.Attribute) and t.attr == "dtype" for t in n.targets) and isinstance(n.value, ast.Dict):
+            store = n
+    if store is None:
+        raise AnalysisError("_initialize_aggregation: 'agg.dtype = {...}' not found (anchor)")
+    d = {k.value: v for k, v in zip(store.value.keys, store.value.values) if isinstance(k, ast.Constant)}
+    if "final" not in d:
+        raise AnalysisError("_initialize_aggregation: agg.dtype['final'] not found (anchor)")
+    params = f.params
+    allowed = {p for p in params if p in ("func", "dtype", "array_dtype", "fill_value")}
+    other = set(params) - allowed
+    clo = _local_closure(f, d["final"])
+    reached = set()
+    for e in clo:
+        reached |= names_in(e) & set(params)
+    bad = sorted(reached & other)
+    res.inst(f"_initialize_aggregation: agg.dtype['final'] depends on parameters {sorted(reached)} (allowed: {sorted(allowed)})", "deps")
+    for b in bad:
+        res.report(f"aggregations._initialize_aggregation|final-dtype-depends-on|{b}", f.where(store), f.qualname,
+                   f"the final dtype depends on the parameter '{b}': the property allows the reduction, the input dtype, the requested dtype and the fill value "
+                   "only, so two calls that differ in nothing else announce and return different dtypes (and a fill written later may not fit)")
+    # the fill value reaches the normaliser unconditionally
+    n_calls = 0
+    for e in clo:
+        for c in ast.walk(e):
+            if isinstance(c, ast.Call) and norm(c.func).endswith("_normalize_dtype"):
+                n_calls += 1
+                fv = kwarg(c, "fill_value") or (c.args[3] if len(c.args) > 3 else None)
+                ok = isinstance(fv, ast.Name) and fv.id == "fill_value"
+                res.inst(f"_initialize_aggregation: final dtype normalised with fill_value={norm(fv) if fv is not None else '<none>'}: the user's fill, unconditionally: {ok}", "fill-arg")
+                if not ok:
+                    res.report("aggregations._initialize_aggregation|final-dtype-fill-conditional", f.where(c), f.qualname,
+                               f"the final dtype is normalised with fill_value={norm(fv)[:50] if fv is not None else 'nothing'} instead of the user's fill_value: "
+                               "the result is not widened to hold the fill on the paths where it is withheld, although reindexing to expected_groups writes the "
+                               "fill regardless (NaN is cast into an integer result)")
+    if n_calls == 0:
+        res.notes.append("UNDECIDED: the final dtype is not computed by _normalize_dtype(...)")
+    return res
